@@ -209,6 +209,9 @@ func runLayer(layer string, total int, capSecs int) *layerTotals {
 	if layer == "race" && W > 6 {
 		W = 6
 	}
+	if v, err := strconv.Atoi(os.Getenv("VERIF_WORKERS")); err == nil && v > 0 && v < W {
+		W = v
+	}
 	if total < W {
 		W = total
 	}
